@@ -1,27 +1,27 @@
 #!/bin/bash
-# confirm_seed.sh <prop> <variant>   e.g. C05 A
+# confirm_seed.sh <prop> <variant> [round]  e.g. C05 A   or   C05 A 2  (reads /tmp/mut/C05.out2/A, stores seeded/C05-2A)
 # Confirms a sub-agent's seeded defect in its scratch worktree /tmp/mut/<prop> and, when confirmed,
 # stores it as /verif/seeded/<prop>-<variant>/ {patch.diff, demo.rs, notes.md, meta.json}.
 set -u
-P=$1; V=$2; WT=/tmp/mut/$P; SRC=/tmp/mut/$P.out/$V; OUT=/verif/seeded/$P-$V
+P=$1; V=$2; R=${3:-}; WT=/tmp/mut/$P; SRC=/tmp/mut/$P.out$R/$V; OUT=/verif/seeded/$P-$R$V
 export CARGO_NET_OFFLINE=true
-[ -f $SRC/patch.diff ] || { echo "$P-$V: no patch"; exit 2; }
+[ -f $SRC/patch.diff ] || { echo "$P-$R$V: no patch"; exit 2; }
 cd $WT || exit 2
 git checkout -q -- . ; git clean -fdq -e target
 FLAGS=""
 grep -q "poster_verif" $SRC/demo.rs $SRC/notes.md 2>/dev/null && FLAGS="--cfg poster_verif"
 name=seed_demo
 mkdir -p tests; cp $SRC/demo.rs tests/$name.rs
-RUSTFLAGS="$FLAGS" timeout 900 cargo test --offline --test $name > /tmp/mut/$P-$V.base.log 2>&1; base=$?
-git apply $SRC/patch.diff || { echo "$P-$V: patch does not apply"; git checkout -q -- .; git clean -fdq -e target; exit 2; }
-timeout 900 cargo test --offline --lib > /tmp/mut/$P-$V.lib.log 2>&1; lib=$?
-npass=$(grep -o "[0-9]* passed" /tmp/mut/$P-$V.lib.log | head -1)
-RUSTFLAGS="$FLAGS" timeout 900 cargo test --offline --test $name > /tmp/mut/$P-$V.mut.log 2>&1; mut=$?
+RUSTFLAGS="$FLAGS" timeout 900 cargo test --offline --test $name > /tmp/mut/$P-$R$V.base.log 2>&1; base=$?
+git apply $SRC/patch.diff || { echo "$P-$R$V: patch does not apply"; git checkout -q -- .; git clean -fdq -e target; exit 2; }
+timeout 900 cargo test --offline --lib > /tmp/mut/$P-$R$V.lib.log 2>&1; lib=$?
+npass=$(grep -o "[0-9]* passed" /tmp/mut/$P-$R$V.lib.log | head -1)
+RUSTFLAGS="$FLAGS" timeout 900 cargo test --offline --test $name > /tmp/mut/$P-$R$V.mut.log 2>&1; mut=$?
 git checkout -q -- . ; git clean -fdq -e target
-echo "$P-$V: demo on base exit=$base; lib tests with patch exit=$lib ($npass); demo with patch exit=$mut"
+echo "$P-$R$V: demo on base exit=$base; lib tests with patch exit=$lib ($npass); demo with patch exit=$mut"
 if [ $base -eq 0 ] && [ $lib -eq 0 ] && [ $mut -ne 0 ]; then
   mkdir -p $OUT; cp $SRC/patch.diff $SRC/demo.rs $OUT/; cp $SRC/notes.md $OUT/notes.md 2>/dev/null
-  python3 - "$P" "$V" "$OUT" "$npass" "$FLAGS" <<'PY'
+  python3 - "$P" "$R$V" "$OUT" "$npass" "$FLAGS" <<'PY'
 import json,sys
 p,v,out,npass,flags=sys.argv[1:6]
 notes=open(out+'/notes.md').read() if True else ''
@@ -31,7 +31,7 @@ json.dump({"property":p,"variant":v,"source":"independent sub-agent given only t
               "rustflags":flags},
  "needs_to_manifest":"see notes.md","detected_by":None}, open(out+'/meta.json','w'), indent=1)
 PY
-  echo "$P-$V: CONFIRMED -> $OUT"
+  echo "$P-$R$V: CONFIRMED -> $OUT"
 else
-  echo "$P-$V: NOT confirmed"
+  echo "$P-$R$V: NOT confirmed"
 fi
